@@ -26,6 +26,10 @@ CHECKS = {
    technique="buffer-bound and eviction-cause oracle on a boundary-reconstructed buffer, cross-checked against a VerifSnapshot state hook after every call",
    text="After each push at most maxInFlight events are buffered and the oldest is not complete; every delivery outside Close is of a complete event or happened with more than maxInFlight buffered (timeout 1h excludes expiry). The hook snapshot (list order, table keys, complete flags, message counts) must agree with the reconstruction.",
    note=REASM_NOTE),
+ "C19": dict(engine="reasm", cat="exploration", ref="§5 C19",
+   technique="interval-bracketed expiry oracle over recorded callbacks with real sleeps and monotonic call brackets; Close/Maintain-after-Close/nil-stream return-value checks",
+   text="Each eviction decision is classified from the monotonic brackets of the creating call and the deciding call: certainly expired (must be delivered by this Maintain/PushMessage once it is the oldest), certainly fresh (must not be delivered on account of time), or uncertain (either accepted, counted separately). Close must flush everything once, in order, with loss accounting; later Maintain/Close must fail and deliver nothing; a nil Stream must be refused. The oracle is sound under arbitrary scheduling delay, so load cannot cause a false alarm.",
+   note="Trusted base: harness oracle, process-wide monotonic clock shared by harness and library. Decisions inside the uncertainty interval are not decided. Timeouts -1s, 0, 2/5/20 ms, 1h only."),
 }
 
 NOT_YET = {
